@@ -30,10 +30,10 @@ from . import core
 from .core import MachineryError
 
 CTX_VALS = ["u", "w"]
-ALL_OPS = ["render", "invbody", "invdef", "invclosure", "inv", "set", "get", "toggle"]
+ALL_OPS = ["render", "renderdef", "invbody", "invdef", "invclosure", "inv", "set", "get", "toggle"]
 DEVS = ["regions-by-invalidate", "ns-sanitised", "inline-bf"]
-TIMEOUTS = ["7", "34", "3600", "7200", "86400"]
-LONG_TIMEOUTS = ["3600", "7200", "86400"]
+TIMEOUTS = ["7", "34", "3600", "7200", "86400", "${60*60}"]
+LONG_TIMEOUTS = ["3600", "7200", "86400", "${60*60}"]
 SIG = {
     "ArgsPrecedence": ("invalidate-before-first-render-freezes-def-regions",
                        "invalidate_def/invalidate_closure/invalidate_body called before the section's first cached render freezes "
@@ -58,10 +58,11 @@ def item(j, arg="", tm=0, how="call"):
     return {"sec": j, "arg": arg, "tm": tm, "how": how}
 
 
-def tmpl(uri, targs=(), bf=False, en0=True, cached=False, key="static", pfx="", pargs=(), items=(), secs=(), inh=0):
+def tmpl(uri, targs=(), bf=False, en0=True, cached=False, key="static", pfx="", pargs=(), items=(), secs=(), inh=0, parg=""):
     return {"uri": list(uri), "targs": [list(a) for a in targs], "bf": bf, "en0": en0, "inh": inh,
             "isbase": any(i["how"] == "next" for i in items),
-            "page": {"cached": cached, "key": key, "pfx": pfx, "args": [list(a) for a in pargs], "items": [dict(i) for i in items]},
+            "page": {"cached": cached, "key": key, "pfx": pfx, "args": [list(a) for a in pargs], "parg": parg,
+                     "items": [dict(i) for i in items]},
             "secs": list(secs)}
 
 
@@ -77,15 +78,15 @@ def mc_worlds():
              secs=[sec("foo", "def", key="arg", pfx="K1_", args=[("b", "s:D"), ("timeout", "s:34")], buf=True, filt=True),
                    sec("outer", "def", cached=False, items=[item(3, "B")]),
                    sec("inner", "ndef", args=[("a", "s:I")], parent=2)]),
-        tmpl(["b", ".", "html"], cached=True, key="ctx", pfx="pg_", items=[item(1, "A")],
+        tmpl(["b", ".", "html"], cached=True, key="argctx", pfx="pg_", parg="P", items=[item(1, "A")],
              secs=[sec("foo", "def", key="arg", pfx="K1_")]),
     ], passctx=True)
     w2 = world([
         tmpl(["c", ".", "html"], targs=[("timeout", "i:60")], cached=True, pargs=[("type", "s:file")],
              items=[item(1), item(2), item(3, "V")],
              secs=[sec("nb", "nblock", args=[("timeout", "s:3600")], filt=True),
-                   sec("anon1", "ablock", key="ctx", pfx="KS_"),
-                   sec("bar", "def", key="ctx", pfx="KS_", buf=True)]),
+                   sec("anon1", "ablock", key="mod", pfx="KM_"),
+                   sec("bar", "def", key="ctx", pfx="KS_")]),
     ], passctx=False)
     w3 = world([      # inheritance: the child's page runs inside the (cached) page of the base, each with its own cache
         tmpl(["k", ".", "html"], inh=2, items=[item(1, "V")], secs=[sec("foo", "def", key="ctx", pfx="K1_", args=[("a", "s:C")])]),
@@ -181,9 +182,9 @@ def gen_template(rng, uri, profile, tno):
         name = next(names) if kind != "ablock" else "anon%d" % j
         cached = rng.random() < 0.8
         if kind in ("def", "ndef"):
-            key = rng.choice(["static", "static", "ctx", "arg"])
+            key = rng.choice(["static", "static", "static", "ctx", "arg", "arg", "argctx", "mod"])
         else:
-            key = rng.choice(["static", "static", "ctx"])
+            key = rng.choice(["static", "static", "static", "ctx", "ctx", "mod"])
         pfx = "" if key == "static" else ("KS_" if rng.random() < 0.2 else "K%d_" % j)
         buf = kind in ("def", "ndef") and rng.random() < 0.35      # buffered blocks are not generated (see limits)
         filt = rng.random() < 0.3
@@ -240,13 +241,16 @@ def gen_template(rng, uri, profile, tno):
         targs = [["type", "s:memory"]]
     elif profile == "beaker-file":
         targs = [["type", "s:file"], ["dir", "s:@DIR"]]
+    elif profile == "beaker-dbm":
+        targs = [["type", "s:dbm"], ["dir", "s:@DIR"]]
     else:  # dogpile: one region per template (the plugin does not namespace keys by cache id)
         targs = [["regions", "o:dict"], ["region", "s:r%d" % tno]]
     pcached = rng.random() < 0.3
-    pkey = rng.choice(["static", "ctx"]) if pcached else "static"
+    parg = "P" if rng.random() < 0.3 else ""                  # <%page args="x='P'"/>
+    pkey = rng.choice(["static", "ctx", "mod"] + (["arg", "argctx"] if parg else [])) if pcached else "static"
     return {"uri": uri, "targs": targs, "bf": rng.random() < 0.4, "en0": rng.random() < 0.85, "inh": 0, "isbase": False,
             "page": {"cached": pcached, "key": pkey, "pfx": "" if pkey == "static" else "pg_", "args": gen_args(rng, profile, 0.2),
-                     "items": page_items},
+                     "parg": parg, "items": page_items},
             "secs": secs}
 
 
@@ -259,6 +263,10 @@ def gen_world(rng, profile):
     while profile == "dogpile" and len({re.sub(r"\W", "_", "".join(u)) for u in uris}) < len(uris):
         uris = gen_uri_set(rng, n, False)
     tmpls = [gen_template(rng, u, profile, i + 1) for i, u in enumerate(uris)]
+    if profile != "dogpile" and rng.random() < 0.3:
+        # one configuration for all templates: the driver may then configure the TemplateLookup instead of each Template
+        for t in tmpls[1:]:
+            t["targs"], t["en0"], t["bf"] = copy.deepcopy(tmpls[0]["targs"]), tmpls[0]["en0"], tmpls[0]["bf"]
     # calls across templates: a def of a later template through <%namespace>, or <%include> of a later template (never
     # between templates whose cache ids collide: a section could then reach a section with its own key, see gen_template)
     san = [re.sub(r"\W", "_", "".join(u)) for u in uris]
@@ -327,12 +335,19 @@ def untag(v):
 
 def attrs_of(s, is_page=False):
     a = []
+    x = "px" if is_page else "x"      # the page's argument has its own name: <%include> fills page arguments from the context
     if s["cached"]:
         a.append('cached="True"')
     if s["key"] == "ctx":
         a.append('cache_key="%s${v}"' % s["pfx"])
     elif s["key"] == "arg":
-        a.append('cache_key="%s${x}"' % s["pfx"])
+        a.append('cache_key="%s${%s}"' % (s["pfx"], x))
+    elif s["key"] == "argctx":
+        a.append('cache_key="%s${%s}_${v}"' % (s["pfx"], x))
+    elif s["key"] == "mod":
+        a.append('cache_key="%s${MK}"' % s["pfx"])
+    if is_page and s.get("parg"):
+        a.append("args=\"px='%s'\"" % s["parg"])
     for n, v in s["args"]:
         a.append('cache_%s="%s"' % (n, untag(v)))
     if not is_page:
@@ -384,7 +399,7 @@ def template_text(w, tno=1, uris=None):
         return "".join(out)
 
     others = {k: [x["name"] for x in tt["secs"]] for k, tt in enumerate(w["tmpls"], 1)}
-    parts = ['<%!\ndef ff(s):\n    return "{" + s + "}"\ndef bf(s):\n    return "<" + s + ">"\n%>\n']
+    parts = ['<%!\nMK = "m"\ndef ff(s):\n    return "{" + s + "}"\ndef bf(s):\n    return "<" + s + ">"\n%>\n']
     pg = dict(t["page"], buf=False, filt=False)
     pa = attrs_of(pg, is_page=True)
     if pa:
@@ -397,7 +412,7 @@ def template_text(w, tno=1, uris=None):
     for j, s in enumerate(secs, 1):
         if s["kind"] == "def":
             parts.append('<%%def name="%s(x)" %s>%s</%%def>\n' % (s["name"], attrs_of(s), body(j, others)))
-    parts.append("(body:${c.tick('%d.body')}:${v}::%d)" % (tno, tno))
+    parts.append("(body:${c.tick('%d.body')}:${v}:%s:%d)" % (tno, "${px}" if t["page"].get("parg") else "", tno))
     for it in t["page"]["items"]:
         parts.append(call(it, others))
     text = "".join(parts)
@@ -462,8 +477,16 @@ class Driver:
             from dogpile.cache import make_region
             self.regions = {"r%d" % (i + 1): make_region().configure("dogpile.cache.memory") for i in range(len(w["tmpls"]))}
         from mako.lookup import TemplateLookup
-        self.lookup = TemplateLookup()
+        import random
+        # free choices of the concretisation (they do not change the expected behaviour): cache_args vs the deprecated
+        # cache_type/cache_dir/cache_url arguments, configuration on the Template vs on the TemplateLookup (put_string),
+        # render() vs render_context(), cache.set vs cache.put
+        self.cos = random.Random(hid)
+        impl = {"rec": cb.PLUGIN, "beaker-mem": "beaker", "beaker-file": "beaker", "beaker-dbm": "beaker", "dogpile": "dogpile.cache"}[backend]
         self.uris = [self.prefix + "/" + "".join(t["uri"]) for t in w["tmpls"]]
+        conf = [(t["targs"], t["en0"], t["bf"]) for t in w["tmpls"]]
+        self.via_lookup = all(c == conf[0] for c in conf) and self.cos.random() < 0.6
+        self.lookup = TemplateLookup()
         for tno, t in enumerate(w["tmpls"], 1):
             text, anon = template_text(w, tno, self.uris)
             self.texts.append(text)
@@ -479,10 +502,19 @@ class Driver:
                     targs[n] = int(v[2:])
                 else:
                     targs[n] = v[2:]
-            impl = {"rec": cb.PLUGIN, "beaker-mem": "beaker", "beaker-file": "beaker", "dogpile": "dogpile.cache"}[backend]
-            tp = Template(text, uri=self.uris[tno - 1], lookup=self.lookup, cache_impl=impl, cache_args=targs,
-                          buffer_filters=["bf"] if t["bf"] else [], cache_enabled=bool(t["en0"]))
-            self.lookup.put_template(self.uris[tno - 1], tp)
+            ckw = {"cache_args": targs}
+            if targs and set(targs) <= {"type", "dir", "url"} and all(isinstance(x, str) for x in targs.values()) and self.cos.random() < 0.5:
+                ckw = {"cache_" + n: x for n, x in targs.items()}           # deprecated spelling
+            if self.via_lookup:
+                if tno == 1:
+                    self.lookup = TemplateLookup(cache_impl=impl, buffer_filters=["bf"] if t["bf"] else [],
+                                                 cache_enabled=bool(t["en0"]), **ckw)
+                self.lookup.put_string(self.uris[tno - 1], text)
+                tp = self.lookup.get_template(self.uris[tno - 1])
+            else:
+                tp = Template(text, uri=self.uris[tno - 1], lookup=self.lookup, cache_impl=impl,
+                              buffer_filters=["bf"] if t["bf"] else [], cache_enabled=bool(t["en0"]), **ckw)
+                self.lookup.put_template(self.uris[tno - 1], tp)
             if backend != "rec":
                 tp.cache.impl = cb.RecordingProxy(tp.cache.impl, self.rec)
             else:
@@ -507,9 +539,13 @@ class Driver:
             if k.startswith(p) and len(p) > len(best):
                 best = p
         rest = k[len(best):]
+        if best not in ("", "render_") and "_" in rest:      # <pfx>${x}_${v}
+            return [best] + rest.split("_", 1)
         return [best, self.ranon[t - 1].get(rest, rest)]
 
     def conc_key(self, t, k):
+        if len(k) == 3:
+            return k[0] + k[1] + "_" + k[2]
         return k[0] + self.anon[t - 1].get(k[1], k[1])
 
     def _calls(self, t):
@@ -555,11 +591,22 @@ class Driver:
         tp = self.tm[t - 1]
         e = dict(o)
         exc = None
+        xkw = {"timeout": 9999} if o.get("x") else {}
         try:
-            if ev == "render":
+            if ev in ("render", "renderdef"):
                 self.rec.counter = self.counter
                 try:
-                    e["out"] = parse_out(tp.render(c=self.counter, v=o["c"]))
+                    if ev == "renderdef":
+                        text = tp.get_def(o["name"]).render(x=o["arg"], c=self.counter, v=o["c"])
+                    elif self.cos.random() < 0.3:
+                        import io
+                        from mako.runtime import Context
+                        buf = io.StringIO()
+                        tp.render_context(Context(buf, c=self.counter, v=o["c"]))
+                        text = buf.getvalue()
+                    else:
+                        text = tp.render(c=self.counter, v=o["c"])
+                    e["out"] = parse_out(text)
                 except Exception as ex:  # noqa
                     e["out"] = [["exc:" + type(ex).__name__, 0, "", "", 0]]
                 e["execs"] = self.execs()
@@ -570,14 +617,14 @@ class Driver:
             elif ev == "invclosure":
                 tp.cache.invalidate_closure(self.anon[t - 1].get(o["name"], o["name"]))
             elif ev == "inv":
-                tp.cache.invalidate(self.conc_key(t, o["key"]))
+                tp.cache.invalidate(self.conc_key(t, o["key"]), **xkw)
             elif ev == "set":
                 self.nset += 1
                 e["n"] = self.nset
-                tp.cache.set(self.conc_key(t, o["key"]), "(set:%d:::0)" % self.nset)
+                (tp.cache.set if self.cos.random() < 0.5 else tp.cache.put)(self.conc_key(t, o["key"]), "(set:%d:::0)" % self.nset, **xkw)
             elif ev == "get":
                 try:
-                    r = tp.cache.get(self.conc_key(t, o["key"]))
+                    r = tp.cache.get(self.conc_key(t, o["key"]), **xkw)
                 except KeyError:
                     r = None
                 if r is None or type(r).__name__ == "NoValue":
@@ -620,7 +667,9 @@ def expected_of(st, w):
     t = last["t"]
     e["t"] = t
     e["calls"] = [{"op": c["op"], "ns": list(c["ns"]), "key": list(c["key"]), "kw": _kw(c["kw"])} for c in (last.get("calls") or [])]
-    if op == "render":
+    if op in ("render", "renderdef"):
+        if op == "renderdef":
+            e["name"], e["arg"] = last["name"], last["arg"]
         e["c"] = last["c"]
         e["out"] = [list(x) for x in (last["out"] or [])]
         e["execs"] = [[(st["execs"][k - 1] if isinstance(st["execs"], list) else st["execs"][k])[j] for j in range(len(tt["secs"]) + 1)]
@@ -629,6 +678,7 @@ def expected_of(st, w):
         e["name"] = last["name"]
     elif op in ("inv", "set", "get"):
         e["key"] = list(last["key"])
+        e["x"] = last["x"]
         if op == "set":
             e["n"] = last["n"]
         if op == "get":
@@ -675,7 +725,7 @@ def replay_behaviour(states, w, backend, hid, scratch, corrupt=None):
             continue
         if corrupt and corrupt[0] == idx:
             corrupt[1](exp)
-        o = {k: exp[k] for k in ("ev", "t", "c", "name", "key") if k in exp}
+        o = {k: exp[k] for k in ("ev", "t", "c", "name", "key", "x", "arg") if k in exp}
         obs = d.op(o)
         hist.append(o)
         f = compare(exp, obs, backend == "rec")
@@ -686,9 +736,9 @@ def replay_behaviour(states, w, backend, hid, scratch, corrupt=None):
 
 
 # --------------------------------------------------------------------------- TLC configurations
-def cfg(as_coded, ops, invariants, depth=None):
-    s = ("CONSTANTS CtxVals = {%s}  AsCoded = {%s}  Ops = {%s}%s\nSPECIFICATION Spec\nCHECK_DEADLOCK FALSE\n"
-         % (", ".join('"%s"' % c for c in CTX_VALS), ", ".join('"%s"' % d for d in as_coded), ", ".join('"%s"' % o for o in ops),
+def cfg(as_coded, ops, invariants, depth=None, xvals="{FALSE, TRUE}"):
+    s = ("CONSTANTS CtxVals = {%s}  AsCoded = {%s}  Ops = {%s}%s  XVals = " + xvals + "\nSPECIFICATION Spec\nCHECK_DEADLOCK FALSE\n")
+    s = (s % (", ".join('"%s"' % c for c in CTX_VALS), ", ".join('"%s"' % d for d in as_coded), ", ".join('"%s"' % o for o in ops),
             ("  Depth = %d" % depth) if depth is not None else "  Depth = 1000"))
     if depth is not None:
         s += "CONSTRAINT Bound\n"
@@ -702,7 +752,7 @@ WEAK = ["AtMostOncePerKey", "ExecIffMiss", "ReplayExactW", "DisabledExecutesAlwa
 
 
 def trace_cfg():
-    return ("CONSTANTS CtxVals = {%s}  AsCoded = {%s}  Ops = {%s}\nSPECIFICATION TSpec\nCHECK_DEADLOCK FALSE\n"
+    return ("CONSTANTS CtxVals = {%s}  AsCoded = {%s}  Ops = {%s}  XVals = {FALSE, TRUE}\nSPECIFICATION TSpec\nCHECK_DEADLOCK FALSE\n"
             % (", ".join('"%s"' % c for c in CTX_VALS), ", ".join('"%s"' % d for d in DEVS), ", ".join('"%s"' % o for o in ALL_OPS)))
 
 
@@ -717,8 +767,12 @@ def keys_of(t):
             ks.append(["render_" if s["kind"] in ("page", "def", "nblock") else "", s["name"]])
         elif s["key"] == "ctx":
             ks += [[s["pfx"], c] for c in CTX_VALS]
+        elif s["key"] == "arg":
+            ks += [[s["pfx"], a] for a in ["A", "B", "P"] + CTX_VALS]
+        elif s["key"] == "argctx":
+            ks += [[s["pfx"], a, c] for a in ["A", "B"] + CTX_VALS for c in CTX_VALS]
         else:
-            ks += [[s["pfx"], a] for a in ["A", "B"] + CTX_VALS]
+            ks.append([s["pfx"], "m"])
     return ks
 
 
@@ -727,10 +781,14 @@ def random_history(rng, w, n_ops, allow_set):
     for _ in range(n_ops):
         t = rng.randrange(len(w["tmpls"])) + 1
         tt = w["tmpls"][t - 1]
-        kind = rng.choice(["render"] * 6 + ["invbody", "invdef", "invdef", "invclosure", "invclosure", "inv", "inv", "set", "get", "toggle"])
+        kind = rng.choice(["render"] * 6 + ["renderdef", "invbody", "invdef", "invdef", "invclosure", "invclosure", "inv", "inv", "set", "get", "toggle"])
         if kind == "render":
             if not tt["isbase"]:
                 ops.append({"ev": "render", "t": t, "c": rng.choice(CTX_VALS)})
+        elif kind == "renderdef":
+            names = [s["name"] for s in tt["secs"] if s["kind"] == "def" and not s["buf"]]
+            if names:
+                ops.append({"ev": "renderdef", "t": t, "name": rng.choice(names), "arg": rng.choice(["A", "B"]), "c": rng.choice(CTX_VALS)})
         elif kind == "invbody":
             if tt["page"]["cached"]:
                 ops.append({"ev": "invbody", "t": t})
@@ -742,7 +800,7 @@ def random_history(rng, w, n_ops, allow_set):
         elif kind in ("inv", "set", "get"):
             ks = keys_of(tt)
             if ks and (kind != "set" or allow_set):
-                ops.append({"ev": kind, "t": t, "key": rng.choice(ks)})
+                ops.append({"ev": kind, "t": t, "key": rng.choice(ks), "x": rng.random() < 0.3})
         else:
             ops.append({"ev": "toggle", "t": t})
     return ops
@@ -755,7 +813,7 @@ def record(w, ops, backend, hid, scratch):
 
 # --------------------------------------------------------------------------- the check
 def ops_of(events):
-    return [{k: x for k, x in e.items() if k in ("ev", "t", "c", "name", "key")} for e in events]
+    return [{k: x for k, x in e.items() if k in ("ev", "t", "c", "name", "key", "x", "arg")} for e in events]
 
 
 def judge_trace(run, t, w, profile, texts, v):
@@ -792,7 +850,7 @@ def replay_file(run, path):
 def installed(profile):
     """Beaker / dogpile.cache are optional third-party backends ("when installed")."""
     import importlib
-    mod = {"beaker-mem": "beaker.cache", "beaker-file": "beaker.cache", "dogpile": "dogpile.cache"}.get(profile)
+    mod = {"beaker-mem": "beaker.cache", "beaker-file": "beaker.cache", "beaker-dbm": "beaker.cache", "dogpile": "dogpile.cache"}.get(profile)
     if mod is None:
         return True
     try:
@@ -822,24 +880,27 @@ def check(run):
     acts = {}
     # vacuity: TLC's coverage statistics on a one-template world in which every action is enabled (their cost grows with
     # the size of the worlds literal: 20 s on the worlds below, so the big runs go without)
-    res = run.tlc("MC_Cache", cfg(DEVS, ALL_OPS, WEAK, 3), name="mc-cover", coverage=True, timeout=600,
+    res = run.tlc("MC_Cache", cfg(DEVS, ALL_OPS, WEAK, 2), name="mc-cover", coverage=True, timeout=600,
                   extra_files={"CacheProgs.tla": progs_module([mcw[1]])}, workers=4)
     if res.violated:
         run.spec_violation(res, "TLC: %s violated in Cache.tla (mc-cover)" % res.violated)
     for a, (dd, g) in res.coverage.items():
         acts[a] = acts.get(a, 0) + g
-    for a in ("DoRender", "DoInvBody", "DoInvDef", "DoInvClosure", "DoInvalidate", "DoSet", "DoGet", "DoToggle"):
+    for a in ("DoRender", "DoRenderDef", "DoInvBody", "DoInvDef", "DoInvClosure", "DoInvalidate", "DoSet", "DoGet", "DoToggle"):
         if not acts.get(a):
             raise MachineryError("vacuous model checking: action %s never taken (%s)" % (a, acts))
     run.extra["tlc_action_coverage"] = acts
-    for name, devs, invs, ops, depth, cov in [
-        ("mc-intended", [], STRICT, small_ops, d_main, False),
-        ("mc-intended-allops", [], STRICT, ALL_OPS, d_all, False),
-        ("mc-ascoded", DEVS, WEAK, small_ops, d_main, False),
-        ("mc-ascoded-allops", DEVS, WEAK, ALL_OPS, d_all, False),
+    both = "{FALSE, TRUE}"
+    for name, devs, invs, ops, depth, xv in [
+        ("mc-intended", [], STRICT, small_ops, d_main, both),
+        ("mc-intended-allops", [], STRICT, ALL_OPS, d_all, both if thorough else "{FALSE}"),
+        ("mc-ascoded", DEVS, WEAK, small_ops, d_main, both),
+        ("mc-ascoded-allops", DEVS, WEAK, ALL_OPS, d_all, both if thorough else "{FALSE}"),
+        ("mc-ascoded-xkw", DEVS, WEAK, ["render", "inv", "set", "get"], d_all, "{TRUE}"),     # explicit **kw on get/set/invalidate
     ]:
-        res = run.tlc("MC_Cache", cfg(devs, ops, invs, depth), name=name, coverage=cov, timeout=1500,
-                      extra_files={"CacheProgs.tla": pm}, workers=None if thorough else 8)
+        res = run.tlc("MC_Cache", cfg(devs, ops, invs, depth, xvals=xv), name=name, timeout=1500,
+                      extra_files={"CacheProgs.tla": pm if thorough or not name.endswith("-xkw") else progs_module([mcw[1]])},
+                      workers=None if thorough else 8)
         if res.violated:
             run.spec_violation(res, "TLC: %s violated in Cache.tla (%s)" % (res.violated, name))
 
@@ -872,7 +933,7 @@ def check(run):
                           {"backend": "rec", "world": w, "ops": mm.get("history"), "mismatch": mm})
 
     # ------------------------------------------------------------------ 3. R: simulate -> replay on real templates
-    profiles = [("rec", 14, 10), ("beaker-mem", 8, 6), ("beaker-file", 4, 4), ("dogpile", 6, 5)]   # profile, worlds, behaviours per world
+    profiles = [("rec", 14, 10), ("beaker-mem", 8, 6), ("beaker-file", 4, 4), ("beaker-dbm", 3, 3), ("dogpile", 6, 5)]   # profile, worlds, behaviours per world
     if thorough:
         profiles = [(p, n * 6, b * 2) for p, n, b in profiles]
     missing = sorted({p for p, _, _ in profiles if not installed(p)})
@@ -947,7 +1008,7 @@ def check(run):
     # ------------------------------------------------------------------ 4. V: record -> validate
     groups = [("rec", 60, 30), ("beaker-mem", 20, 30), ("dogpile", 10, 30)]
     if thorough:
-        groups = [("rec", 800, 30), ("beaker-mem", 200, 30), ("beaker-file", 60, 30), ("dogpile", 120, 30)]
+        groups = [("rec", 800, 30), ("beaker-mem", 200, 30), ("beaker-file", 60, 30), ("beaker-dbm", 40, 30), ("dogpile", 120, 30)]
     groups = [g for g in groups if g[0] not in missing]
     tid = 0
     for gi, (profile, n, n_ops) in enumerate(groups):
